@@ -343,7 +343,7 @@ class Harness:
             payload.__module__ = None  # e.g. a function made by exec() in a bare namespace
         return payload, exp_args, exp_kwargs
 
-    def command(self, pid, cmd, wait=True, timeout=1.0):
+    def command(self, pid, cmd, wait=True, timeout=2.5):
         g = self.gate(pid)
         flavour = self.spec_of(pid)["flavour"]
         if flavour == "threading":
